@@ -84,6 +84,11 @@ def const_value(n):
         return None
     if "cv" in n:
         return n["cv"]
+    if "cvs" in n:                     # values beyond the JSON-safe range are emitted as strings
+        try:
+            return int(n["cvs"])
+        except (TypeError, ValueError):
+            pass
     if n["k"] in ("IntegerLiteral", "CharacterLiteral", "CXXBoolLiteralExpr", "CXXNullPtrLiteralExpr", "GNUNullExpr") and "v" in n:
         return n["v"]
     s = strip(n)
